@@ -130,7 +130,7 @@ let once_expand (x : oworld) (t : string list) : oop list * int =
       if not x.o_alive then ([OGet], 0)
       else
         let st = z_of_n x.o_sh.sw0 in
-        if Z.equal st Z.one then ([OPoll (nat_of_int 1000000, O)], 0)
+        if Z.equal st Z.one then ([OPoll (S (S (S x.o_nf)), O)], 0)   (* rejected by the harness: a poll of a future that does not exist is rejected by the model too *)
         else
           let k = if Z.equal st (Z.of_int 2) then IKInit else IKSet (n_of_string v) in
           ([OStartInit k; OPoll (x.o_nf, O); ODropFut x.o_nf], 1)
